@@ -25,7 +25,7 @@ def sliced_wasserstein(PD1, PD2, M=50):
     """
 
     diag_theta = np.array(
-        [np.cos(0.25 * np.pi), np.sin(0.25 * np.pi)], dtype=np.float32
+        [np.cos(0.25 * np.pi), np.sin(0.25 * np.pi)], dtype=np.float64
     )
 
     l_theta1 = [np.dot(diag_theta, x) for x in PD1]
@@ -43,7 +43,7 @@ def sliced_wasserstein(PD1, PD2, M=50):
     step = 1.0 / M
     for i in range(M):
         l_theta = np.array(
-            [np.cos(theta * np.pi), np.sin(theta * np.pi)], dtype=np.float32
+            [np.cos(theta * np.pi), np.sin(theta * np.pi)], dtype=np.float64
         )
 
         V1 = [np.dot(l_theta, x) for x in PD1] + [np.dot(l_theta, x) for x in PD_delta2]
